@@ -682,6 +682,7 @@ func c13req(p *Program, r *Report, rule string) {
 
 func runC13(p *Program, r *Report) {
 	c13req(p, r, "C13.req")
+	cRequestWriters(p, r, "C13.req.writers")
 	cSingleValued(p, r, "C13.single", "Dial: response verification", []string{"verifyServerResponse", "verifySubprotocol"}, []string{"Sec-WebSocket-Accept", "Sec-WebSocket-Protocol"})
 	if fn := p.Func("secWebSocketKey"); fn != nil {
 		p.forAllPaths(r, "C13.key", fn, "16 random bytes, base64", Opts{},
